@@ -16,9 +16,9 @@ MANIFEST = dict(
     technique="TLA+ spec + TLC exhaustive model checking of task interleavings and failures; edge-complete graph replay "
               "into the implementation through a gated interpreter",
     design="5/C06")
-INVS = ["TypeOK", "NoOrphans", "NoIdleWait", "SpawnTarget", "NotSwallowed"]
+INVS = ["TypeOK", "NoOrphans", "NoIdleWait", "SpawnTarget", "NotSwallowed", "NoEscape"]
 PROPS = ["DetachedUntouched", "CancelCascades", "CheckAgrees"]
-ACTIONS = ["Open", "Spawn", "Leave", "End", "Fail", "Cancel", "CtxCancel", "Check"]
+ACTIONS = ["Open", "Spawn", "Leave", "End", "Fail", "Cancel", "CtxCancel", "Check", "SetWill"]
 
 
 def run(rep, work, tier, seed):
@@ -34,6 +34,8 @@ def run(rep, work, tier, seed):
     if tier == "thorough":
         small = dict(NTasks=3, MaxDepth=2, MaxScopes=2, MaxOps=5)
         leg_mutant(rep, work, SPEC, "mutant_no_wait", cfg_text(dict(small, Bug="no_wait"), invariants=INVS), ["NoOrphans"])
+        leg_mutant(rep, work, SPEC, "mutant_will_detached", cfg_text(dict(small, MaxOps=6, Bug="will_detached"), invariants=INVS),
+                   ["NoEscape"])
         leg_mutant(rep, work, SPEC, "mutant_spawn_detached",
                    cfg_text(dict(small, Bug="spawn_detached"), spec="Spec", invariants=INVS, properties=PROPS),
                    ["CancelCascades", "NoOrphans", "SpawnTarget", "DetachedUntouched"])
